@@ -27,6 +27,7 @@ def build_skel(st, gen, rng):
     from sysloss.system import System
     S = st["S"]
     names = sorted(S["comps"])
+    first_inputs = {S["par"][m][0] for m in names if S["comps"][m]["cls"] == "PMux" and len(S["par"][m]) > 1}
     s = None
     with warnings.catch_warnings():
         warnings.simplefilter("ignore")
@@ -49,7 +50,17 @@ def build_skel(st, gen, rng):
                     s.add_source(comp, rail=c["rail"], group=c["group"])
                 continue
             cls = {"RLoss": rng.choice(SERIES), "Converter": rng.choice(SWITCH), "ILoad": rng.choice(LOADS), "PMux": "PMux"}[c["cls"]]
-            comp = build(gen.desc(cls, n, par))
+            d = gen.desc(cls, n, par)
+            av = abs(gen.vin_of(par))
+            if c["cls"] == "Converter" and n in first_inputs and av > 0 and rng.random() < 0.4:
+                # a regulator without any head-room as the FIRST input of the mux: it is on, its supply is live, and yet
+                # its output is 0 V - the mux must take its next live input (and be attributed to that input's source)
+                import math
+                d = gen.desc("LinReg", n, par)
+                d["params"]["vo"] = math.copysign(float("%.4g" % (1.6 * av)), d["params"]["vo"])
+                d["params"]["vdrop"] = float("%.4g" % (1.2 * av))
+                gen.vest[n] = 0.0
+            comp = build(d)
             s.add_comp(par if c["cls"] == "PMux" else par[0], comp=comp, rail=c["rail"], group=c["group"])
         # every childless non-load gets a load, so that current flows through every live branch
         kids = {p for n in names for p in S["par"][n]}
